@@ -192,7 +192,8 @@ def cursor(ctx: Ctx, rep: Report) -> None:
     )
     n += 1
     # CircuitGate.get_qasm_gate_def formal numbering (range form)
-    rep.floor(C, n, 6, 'cursor walkers')
+    n += qasm_def_cursor(ctx, rep)
+    rep.floor(C, n, 7, 'cursor walkers')
     # get_param / set_param / freeze_param go through get_param_location
     for name in ('get_param', 'set_param', 'freeze_param'):
         f = ctx.fn(f'{CIRC}:Circuit.{name}')
@@ -273,6 +274,70 @@ def param_index_spaces(ctx: Ctx, rep: Report) -> None:
                 'wrong parameter is read or frozen', key='spaces',
             )
     rep.floor(X, n, 3, 'get_param_location call sites in Circuit')
+
+
+def qasm_def_cursor(ctx: Ctx, rep: Report) -> int:
+    """CircuitGate.get_qasm_gate_def numbers the formal parameters p0, p1,
+    ... of the written gate body with the same running cursor discipline as
+    the simulators: start at 0, name range(i, i + W) for the operation, then
+    i += W exactly once per operation - whatever kind of operation it is
+    (a nested block consumes formals too)."""
+    C = 'CURSOR'
+    f = ctx.fn('bqskit/ir/gates/circuitgate.py:CircuitGate.'
+               'get_qasm_gate_def')
+    g = ctx.cfg(f)
+    rep.seen(f.qualname)
+    loops = [x for x in g.nodes if x.kind == 'for' and norm(
+        x.stmt.iter) == 'self._circuit' and norm(x.stmt.target) == 'op']
+    rep.count(2)
+    if len(loops) != 1:
+        rep.fail(C, 'CircuitGate.get_qasm_gate_def:order', f.path, f.lineno,
+                 'the body is not written by one walk `for op in '
+                 'self._circuit` (default order)', key='order')
+        return 0
+    lp = loops[0]
+    rep.ok(C, 'CircuitGate.get_qasm_gate_def:order', f.path, lp.lineno,
+           'walks the inner circuit in default order')
+    body = g.in_loop_body(lp)
+    adv = [x for x in g.nodes if x.id in body and isinstance(
+        x.stmt, ast.AugAssign) and isinstance(x.stmt.op, ast.Add)
+        and norm(x.stmt.target) == 'param_index'
+        and norm(x.stmt.value) in WIDTHS]
+    reads = [x for x in g.nodes if x.id in body and x not in adv and any(
+        isinstance(s, ast.Call) and norm(s.func) == 'range'
+        and len(s.args) == 2 and norm(s.args[0]) == 'param_index'
+        and norm(s.args[1]) in {f'param_index + {w}' for w in WIDTHS}
+        for s in x.walk())]
+    init = [d for d in ctx.rd(f).reaching(lp, 'param_index')
+            if d.node.id not in body]
+    st = [b for b, l in g.succ[lp.id] if l == 'iter']
+    ok = bool(adv) and len(reads) == 1 and bool(st) and bool(init) and all(
+        d.kind == 'assign' and norm(d.value) == '0' for d in init)
+    why = (f'{len(reads)} read(s) of range(i, i + W), {len(adv)} advance(s)')
+    if ok:
+        once = g.must(lambda m: m in adv, start=st[0], ends={lp.id})
+        twice = any(
+            y.id in g.reach([x.id], blocked={lp.id}, include_starts=False)
+            for x in adv for y in adv)
+        late = any(
+            reads[0].id in g.reach([x.id], blocked={lp.id},
+                                   include_starts=False) for x in adv)
+        ok = once and not twice and not late
+        if not once:
+            why += '; some kind of operation does not advance the cursor'
+        if twice:
+            why += '; the cursor can advance twice for one operation'
+        if late:
+            why += '; the cursor advances before the formals are named'
+    rep.check(
+        ok, C, 'CircuitGate.get_qasm_gate_def:slice', f.path, lp.lineno,
+        'formals p[i : i+W] are named, then i += W, once per operation',
+        'the formal-parameter cursor of the written gate body is not '
+        f'(0; name range(i, i+W); i += W once per operation): {why} - later '
+        'operations re-use the formals of earlier ones and the written '
+        'gate denotes a different unitary', key='slice',
+    )
+    return 1
 
 
 def _normalise_tensor(e: ast.AST, which: str) -> str:
